@@ -15,6 +15,12 @@ pub fn get_local_multicast_locators(port: u16) -> Vec<Locator> {
 }
 
 pub fn get_local_unicast_locators(port: u16) -> Vec<Locator> {
+  #[cfg(rustdds_verif)]
+  {
+    if let Some(locators) = crate::verif::hooks::sim_unicast_locators(port) {
+      return locators; // one fixed fake interface per simulated host
+    }
+  }
   match if_addrs::get_if_addrs() {
     Ok(ifaces) => ifaces
       .iter()
@@ -38,6 +44,12 @@ pub fn get_local_unicast_locators(port: u16) -> Vec<Locator> {
 // Now we just skip loopback.
 // Could use e.g. "interfaces" crate to do this.
 pub fn get_local_multicast_ip_addrs() -> io::Result<Vec<IpAddr>> {
+  #[cfg(rustdds_verif)]
+  {
+    if let Some(addrs) = crate::verif::hooks::sim_multicast_if_addrs() {
+      return Ok(addrs);
+    }
+  }
   let ifs = if_addrs::get_if_addrs()?;
   Ok(
     ifs
